@@ -34,6 +34,13 @@ import (
 //	              own-abs, own-dir, parent), a sibling's (sibling:<script>[:<path>])
 //	R path        rm path (removeAll: chmod pass, then RemoveAll)
 //	Q path data   a custom command creating a file and making it read-only (mode 0444)
+//	S             a custom command that ends the run by calling Skip on the T it got from Env.T()
+//	A fatal       a custom command that ends the run by calling FailNow (Fatal) on that T
+//
+// How a deferred function (D, Script.Defers) ends is told by its id (deferKind): with the bad flag it
+// panics; ids 200..299 call T.FailNow (even) or T.Fatal (odd); ids 300..399 call T.Skip; ids 400..499
+// (D only) call ts.Fatalf, which outside a script line is a panic.  G with an id in 30..49 starts the
+// helper by its absolute path (no PATH needed).
 type Action struct {
 	Op   string  `json:"op"`
 	Path string  `json:"path,omitempty"`
@@ -135,6 +142,21 @@ func (b *Batch) validate() error {
 		if s.Name != want[i] {
 			return fmt.Errorf("script %d: name %q is not what the base names give (%q)", i, s.Name, want[i])
 		}
+		if !reSetupVars.MatchString(s.SetupVars) {
+			return fmt.Errorf("script %s: setup_vars %q refused", s.Name, s.SetupVars)
+		}
+		for _, d := range s.Defers {
+			if deferKind(d.ID, d.Bad) == "tsfatalf" {
+				return fmt.Errorf("script %s: a deferred function of Setup cannot call ts.Fatalf (id %d)", s.Name, d.ID)
+			}
+		}
+		if !varsForActions(s.SetupVars) {
+			for k := range s.Body {
+				if !s.Body[k].needsNoVars() {
+					return fmt.Errorf("script %s: action %s needs $WORK / $PATH, which Setup drops", s.Name, s.Body[k].Op)
+				}
+			}
+		}
 		for _, f := range s.Files {
 			if f.Escape != "" {
 				if f.Escape != "up" && f.Escape != "abs" && f.Escape != "home" && !reSibling.MatchString(f.Escape) {
@@ -194,7 +216,68 @@ type DeferSpec struct {
 	Bad bool `json:"bad,omitempty"`
 }
 
+// deferKind: how the deferred function with this id ends ("" = it returns).
+func deferKind(id int, bad bool) string {
+	switch {
+	case bad:
+		return "panic"
+	case id >= 200 && id < 300:
+		if id%2 == 0 {
+			return "failnow"
+		}
+		return "fatal"
+	case id >= 300 && id < 400:
+		return "skip"
+	case id >= 400 && id < 500:
+		return "tsfatalf"
+	}
+	return ""
+}
+
+// bgByPath: the background command with this handle is started by the absolute path of the helper.
+func bgByPath(id int) bool { return id >= 30 && id < 50 }
+
+// keepNames: the allow-list of a Script.SetupVars of the form keep:A,B (nil otherwise).
+func keepNames(mode string) ([]string, bool) {
+	rest, ok := strings.CutPrefix(mode, "keep:")
+	if !ok {
+		return nil, false
+	}
+	if rest == "" {
+		return []string{}, true
+	}
+	return strings.Split(rest, ","), true
+}
+
+// varsKept reports whether Env.Vars still holds the variable after Setup has applied mode.
+func varsKept(mode, name string) bool {
+	switch mode {
+	case "":
+		return true
+	case "nil", "empty":
+		return false
+	}
+	names, _ := keepNames(mode)
+	for _, n := range names {
+		if n == name {
+			return true
+		}
+	}
+	return false
+}
+
+var reSetupVars = regexp.MustCompile(`^(nil|empty|keep:([A-Za-z_:/$][A-Za-z0-9_]*(,[A-Za-z_:/$][A-Za-z0-9_]*)*)?)?$`)
+
+// varsForActions: Setup leaves the variables the renderings of the actions use ($WORK, $PATH, ${:}).
+func varsForActions(mode string) bool {
+	return varsKept(mode, "WORK") && varsKept(mode, "PATH") && varsKept(mode, ":")
+}
+
 type Script struct {
+	// SetupVars: what Params.Setup does to Env.Vars before it appends Adds: "" nothing; "nil" Env.Vars = nil;
+	// "empty" Env.Vars = []string{}; "keep:A,B" an allow-list filter (`var keep []string; for ... append`),
+	// which leaves a nil slice when it keeps nothing.
+	SetupVars string `json:"setup_vars,omitempty"`
 	// Name is the name RunT has to give the subtest and the work directory (script-<Name>); Base, when
 	// set, is the base name of the script file (several scripts of a batch may have the same one, each
 	// in its own directory, and a base name may look like a disambiguated name: foo#1): Name must then
@@ -207,6 +290,13 @@ type Script struct {
 	SetupErr bool        `json:"setup_err,omitempty"`
 	Body     []Action    `json:"body"`
 	DelayMs  int         `json:"delay_ms,omitempty"` // sleep at the start of Setup: orders the scripts, no other effect
+	// EndMark / EndAfter order the ENDS of scripts (harness plumbing, invisible to the model: two more deferred
+	// functions registered by Setup that are not recorded): a script with EndMark raises a flag when its
+	// deferred functions run, i.e. just before its work directory is cleaned up; a script with EndAfter
+	// waits in its last deferred function until the named scripts have raised theirs (at most 3 s), so
+	// that it finishes - and is cleaned up - while their clean-up is under way.
+	EndMark  bool     `json:"end_mark,omitempty"`
+	EndAfter []string `json:"end_after,omitempty"`
 }
 
 type Batch struct {
@@ -324,6 +414,19 @@ func validateAction(a *Action) error {
 	return nil
 }
 
+// needsNoVars: the rendering of the action mentions neither $WORK nor a program looked up on $PATH.
+func (a *Action) needsNoVars() bool {
+	switch a.Op {
+	case "P", "L", "J", "U", "N", "Y":
+		return false
+	case "G":
+		return bgByPath(a.ID)
+	case "I":
+		return a.Sub != nil && a.Sub.needsNoVars()
+	}
+	return true
+}
+
 func (a *Action) modelTokens(out *[]string) {
 	switch a.Op {
 	case "L":
@@ -342,9 +445,12 @@ func (a *Action) modelTokens(out *[]string) {
 		*out = append(*out, "E", hx(a.Key), hx(a.Data))
 	case "P":
 		*out = append(*out, "P", pathTok(a.Path), b01(a.Flag))
-	case "D", "G":
+	case "D":
+		// for the model a function that calls ts.Fatalf panics (it does: outside a script line nothing catches it)
+		*out = append(*out, "D", fmt.Sprint(a.ID), b01(a.Flag || deferKind(a.ID, false) == "tsfatalf"))
+	case "G":
 		*out = append(*out, a.Op, fmt.Sprint(a.ID), b01(a.Flag))
-	case "O", "F", "K", "T", "Z", "N", "Y", "U":
+	case "O", "F", "K", "T", "Z", "N", "Y", "U", "S", "A":
 		*out = append(*out, a.Op)
 	case "J":
 		*out = append(*out, "F") // for the model: a line that fails and has no other effect
@@ -380,6 +486,14 @@ func (s *Script) modelTokens(out *[]string) {
 	*out = append(*out, "Q", fmt.Sprint(len(wn)))
 	*out = append(*out, wn...)
 	*out = append(*out, "X", esc)
+	if names, ok := keepNames(s.SetupVars); ok || s.SetupVars == "nil" || s.SetupVars == "empty" {
+		*out = append(*out, "KEEP", fmt.Sprint(len(names)))
+		for _, n := range names {
+			*out = append(*out, hx(n))
+		}
+	} else {
+		*out = append(*out, "KEEP", "-")
+	}
 	*out = append(*out, "V", fmt.Sprint(len(s.Adds)))
 	for _, kv := range s.Adds {
 		if strings.HasPrefix(kv.V, "$WORK") {
@@ -508,10 +622,12 @@ func (a *Action) lines() []string {
 			return []string{neg + "exec helper exit 1 " + name, fmt.Sprintf("bgrecord %d", a.ID)}
 		case a.ID >= 50:
 			return []string{neg + "exec helper sleepmk $WORK @OBS@ " + name, fmt.Sprintf("bgrecord %d", a.ID)}
+		case bgByPath(a.ID):
+			return []string{neg + "exec @RUN@/bin/helper sleep @OBS@ " + name, fmt.Sprintf("bgrecord %d", a.ID)}
 		}
-		return []string{neg + "exec helper sleep " + name, fmt.Sprintf("bgrecord %d", a.ID)}
+		return []string{neg + "exec helper sleep @OBS@ " + name, fmt.Sprintf("bgrecord %d", a.ID)}
 	case "J":
-		return []string{fmt.Sprintf("exec helper sleep &b%d&", a.ID)}
+		return []string{fmt.Sprintf("exec helper sleep @OBS@ &b%d&", a.ID)}
 	case "H":
 		neg := ""
 		if a.Flag {
@@ -528,6 +644,13 @@ func (a *Action) lines() []string {
 		return []string{"stop"}
 	case "Z":
 		return []string{"boom"}
+	case "S":
+		return []string{"tskip"}
+	case "A":
+		if a.Flag {
+			return []string{"tfailnow fatal"}
+		}
+		return []string{"tfailnow"}
 	case "N":
 		return []string{"kill"}
 	case "Y":
@@ -591,7 +714,11 @@ func fileData(d string) string {
 
 var filePool = []string{"a.txt", "d/b.txt", "d/e/c.txt", "bin/mytool", "x", "a.txt", ".tmp/t", "d/b.txt", "z/y/w.txt", "bin/mytool", "q/r.txt", "d", "d/e"}
 var dirPool = []string{"d", "d/e", "n", "n/m", "bin", "z", ""}
-var progPool = []string{"sh", "nosuchprog-zz", "mytool", "helper", "b.txt", "hostcanary"}
+
+// program names with a separator are not looked up on any PATH: exec.LookPath tries them as they are, i.e.
+// relative to the directory of the test process (the scratch directory of the run, where none of them
+// exists), never relative to the script's directory
+var progPool = []string{"sh", "nosuchprog-zz", "mytool", "helper", "b.txt", "hostcanary", "bin/mytool", "./mytool", "d/b.txt"}
 
 var linkPool = []string{"lnk0", "lnk1", "d/lnk2", "n/lnk3", "lnk0", "d/e/lnk4"}
 var linkKeys = []string{"host-file", "host-ro", "host-x", "host-dir", "host-rodir", "host-inner", "dangling", "own-file", "own-abs", "own-dir", "parent"}
@@ -651,7 +778,19 @@ func genAction(r *common.RNG, st *genState, allowEnd bool, depth int) Action {
 			return Action{Op: "P", Path: common.Pick(r, []string{"bin", "d", ""}), Flag: r.Chance(2, 3)}
 		case k < 15:
 			st.nDefer++
-			return Action{Op: "D", ID: st.nDefer, Flag: r.Chance(1, 12)}
+			// now and then a function that does not return: it panics (flag), fails or skips the test through
+			// its T, or calls ts.Fatalf
+			switch r.Intn(16) {
+			case 0:
+				return Action{Op: "D", ID: st.nDefer, Flag: true}
+			case 1:
+				return Action{Op: "D", ID: 200 + 2*st.nDefer + r.Intn(2)}
+			case 2:
+				return Action{Op: "D", ID: 300 + st.nDefer}
+			case 3:
+				return Action{Op: "D", ID: 400 + st.nDefer}
+			}
+			return Action{Op: "D", ID: st.nDefer}
 		case k < 17:
 			if st.nBg >= 2 || depth > 0 || st.killed {
 				continue
@@ -664,8 +803,12 @@ func genAction(r *common.RNG, st *genState, allowEnd bool, depth int) Action {
 				return Action{Op: "G", ID: 99 + st.nQuick, Flag: neg}
 			}
 			st.nBg++
-			st.bgs = append(st.bgs, genBg{id: st.nBg, neg: neg})
-			return Action{Op: "G", ID: st.nBg, Flag: neg}
+			id := st.nBg
+			if r.Chance(1, 4) {
+				id += 30 // started by the absolute path of the program
+			}
+			st.bgs = append(st.bgs, genBg{id: id, neg: neg})
+			return Action{Op: "G", ID: id, Flag: neg}
 		case k < 18:
 			// never under a guard: the generator has to know whether the signal was sent (a later bare
 			// wait on a command that nothing has signalled waits for ever)
@@ -718,7 +861,8 @@ func genAction(r *common.RNG, st *genState, allowEnd bool, depth int) Action {
 			if !allowEnd {
 				continue
 			}
-			return Action{Op: common.Pick(r, []string{"F", "K", "T", "Z", "F", "K", "T"})}
+			op := common.Pick(r, []string{"F", "K", "T", "Z", "F", "K", "T", "S", "A"})
+			return Action{Op: op, Flag: op == "A" && r.Chance(1, 2)}
 		}
 	}
 }
@@ -771,15 +915,46 @@ func genScript(r *common.RNG, name string, sibs []string) Script {
 	if r.Chance(1, 8) {
 		s.Adds = append(s.Adds, KV{"HOME", "/other-home"})
 	}
-	st := &genState{sibs: sibs}
+	// now and then a Setup that filters or replaces Env.Vars (a hermetic allow-list, nothing at all)
+	if r.Chance(1, 6) {
+		s.SetupVars = common.Pick(r, []string{"nil", "empty", "keep:NOSUCHVAR", "keep:", "keep:WORK,PATH,:", "keep:WORK,PATH,HOME,TMPDIR,exe,:,/", "keep:WORK,PATH", "keep:WORK", "keep:PATH,HOME"})
+		if !varsKept(s.SetupVars, "WORK") {
+			s.Adds = nil // the values of Adds may mention $WORK
+			if r.Chance(1, 3) {
+				s.Adds = []KV{{"EXTRA", "v1"}}
+			}
+		}
+	}
+	noVars := !varsForActions(s.SetupVars)
+	st := &genState{sibs: sibs, roDone: map[string]bool{}}
+	if noVars {
+		// no background commands by name, no PATH change: the generator then only has to avoid links
+		st.pathSet, st.nBg, st.killed = true, 2, true
+	}
 	nd := r.Intn(3)
 	for i := 0; i < nd; i++ {
-		s.Defers = append(s.Defers, DeferSpec{ID: 100 + i, Bad: r.Chance(1, 15)})
+		d := DeferSpec{ID: 100 + i}
+		switch r.Intn(30) {
+		case 0, 1:
+			d.Bad = true
+		case 2:
+			d.ID = 210 + 2*i + r.Intn(2)
+		case 3:
+			d.ID = 310 + i
+		}
+		s.Defers = append(s.Defers, d)
 	}
 	s.SetupErr = r.Chance(1, 20)
 	n := r.Intn(9)
 	for i := 0; i < n; i++ {
-		s.Body = append(s.Body, genAction(r, st, i >= n-2 || r.Chance(1, 6), 0))
+		a := genAction(r, st, i >= n-2 || r.Chance(1, 6), 0)
+		for tries := 0; noVars && !a.needsNoVars(); tries++ {
+			a = Action{Op: "O"}
+			if tries < 50 {
+				a = genAction(r, st, i >= n-2, 0)
+			}
+		}
+		s.Body = append(s.Body, a)
 	}
 	s.DelayMs = r.Intn(4) * r.Intn(8)
 	return s
